@@ -233,7 +233,11 @@ func feedOnce(c *caseSpec, b *built, seg wsgen.Seg, p *vkit.Part) (res, class st
 	if r.MaxCacheIn > bound {
 		bound = r.MaxCacheIn
 	}
-	if m := ep.Spy.Final(); m > bound {
+	m := ep.Spy.Final()
+	if ep.T.MaxRequest > m {
+		m = ep.T.MaxRequest // largest single Malloc request seen by the tracker itself
+	}
+	if m > bound {
 		ex := ""
 		if b.via == "inflate" {
 			ex = " excess=beyond-buffer-capacity"
